@@ -47,7 +47,8 @@ class LongPoll(object):
     def start(self):
         """Start the long poll service."""
         logging.info("Starting Long Poll system")
-        self.timer = RepeatedTimer("Tracepoint Long Poll", self.config.POLL_TIMER, self.poll)
+        # the interval can be given in code (number) or via DEEP_POLL_TIMER (environment values are text)
+        self.timer = RepeatedTimer("Tracepoint Long Poll", float(self.config.POLL_TIMER), self.poll)
         self.__initial_poll()
         self.timer.start()
 
